@@ -44,6 +44,33 @@ def theorems(path):
     imports = re.findall(r'Model\.(\w+)', txt)
     return out, imports
 
+# why a constant has no tie of its own: (module, regex on the constant name) -> (status, reason)
+#   n/a = not a literal of the ncclient source;  b* = checked through another constant / another mechanism;  c = unchecked
+REASONS = [
+    ('Builders', r's_m_\w+|WD_MODES', 'n/a', 'RFC 6243 mode names: arguments the harness passes and the server advertises; not in the source'),
+    ('Escape', r'r_\w+|refs', 'n/a', 'libxml2 serialiser facts, re-measured byte-exactly by tools/props/c07.py on every run (the junos parser hits are a coincidence)'),
+    ('Framing10', r'K_\w+', 'n/a', 'exception codes internal to the model (glue maps them to class names)'),
+    ('Framing10', r'delim10|DELIM10_LEN', 'b', 'Framing_consts.gen_msg_delim'),
+    ('Framing11', r'LF|HASH', 'b', 'Framing_consts.gen_end_delim'),
+    ('Writer', r'LF|HASH|MSG_DELIM|END_DELIM', 'b', 'Framing_consts.gen_msg_delim / gen_end_delim; Writer_consts.tie_transport_session_Session_run'),
+    ('LockCtx', r'K_\w+', 'n/a', 'request kinds internal to the model'),
+    ('Negotiate', r'uri_b11x', 'n/a', 'used only in Examples of Props/C05.v (a server capability that does not occur in the source)'),
+    ('Profiles', r'E_\w+', 'n/a', 'exception codes internal to the model'),
+    ('SaxFilter', r'COLON', 'n/a', 'prefix separator of XML qualified names (lxml find with a namespaces map), not a literal of the source'),
+    ('Utf8', r'ws\d', 'n/a', 'CPython str.isspace code points (3.12), checked against the running interpreter by tools/props/c01.py'),
+    ('XTree', r'[LR]BRACE', 'n/a', 'Clark notation of lxml'),
+    ('XmlHelpers', r'Q_GT', 'b*', 'suffix of DECL_B (Proofs/XmlHelpersProofs.decl_b_split); DECL_B is tied by XmlHelpers_consts.tie_xml__to_xml'),
+    ('RefFraming', r'end11', 'n/a', 'RFC 6242 end-of-chunks: part of the SPECIFICATION the code is compared with; deliberately not tied to the source'),
+    ('VendorSchema', r'filter_shapes', 'n/a', 'schema of the h3c/alu filter argument (specification); its names are the Builders.v constants, tied in Builders_consts.v'),
+    ('Rfc6241Schema', r'filter_shapes', 'n/a', 'RFC 6241 schema (specification); its names are the Builders.v constants, tied in Builders_consts.v'),
+    ('WireSpec', r'.*', 'n/a', 'RFC 6242 / RFC 4742 constants of the SPECIFICATION; deliberately not tied to the source'),
+    ('RpcErrors', r'MODE_\w+', 'b', 'RpcErrors_consts.tie_raise_modes'),
+    ('Caps', r'COLON|QMARK|AMP|EQ', 'b', 'Caps_consts (separators of split())'),
+    ('Gating', r'COMMA', 'b', 'Gating_consts.tie_operations_retrieve__get_valid_with_defaults_modes'),
+    ('RpcErrors', r'NL|STAR', 'b', 'RpcErrors_consts.tie_operations_rpc_RPCError___init__ / tie_devices_default_DefaultDeviceHandler___init__'),
+    ('SaxFilter', r'DQ|SQ', 'b', 'Sax_consts.tie_transport_third_party_junos_parser_quoteattr'),
+]
+
 def main():
     ap = argparse.ArgumentParser()
     ap.add_argument('--repo', default=os.environ.get('VERIF_REPO', '/repo'))
@@ -69,8 +96,8 @@ def main():
             m = re.search(r'Definition\s+%s\b.*?:=(.*?)\.(?=\s|$)' % re.escape(n), txt, flags=re.S)
             body_of[n] = m.group(1) if m else ''
         print('\n### %s/%s.v\n' % (os.path.basename(os.path.dirname(path)), mod))
-        print('| line | constant | value | in the source | tie |')
-        print('|---|---|---|---|---|')
+        print('| line | constant | value | in the source (text search) | status | tie / reason |')
+        print('|---|---|---|---|---|---|')
         for line, name, kind, shown, val in lits:
             where = []
             if val is not None and val:
@@ -87,7 +114,16 @@ def main():
                 for tn, stmt in ths:
                     if any(re.search(r'(?<![\w.])(%s\.)?%s\b' % (mod, re.escape(c)), stmt) for c in carriers):
                         ties.append('%s.%s' % (gname, tn))
-            print('| %d | `%s` | `%s` | %s | %s |' % (line, name, shown.replace('|', '\\|'), ', '.join(where) or '-', '<br>'.join(ties[:3]) or '-'))
+            status = 'b' if ties else 'c'
+            note = '<br>'.join(ties[:3])
+            if not ties:
+                for m_, rx, st, why in REASONS:
+                    if m_ == mod and re.fullmatch(rx, name):
+                        status, note = st, why
+                        break
+            if mod == 'Profiles' and not ties and status == 'c':
+                status, note = 'b*', 'C16_tables.C16_tables_modelled (digest of the getter body)'
+            print('| %d | `%s` | `%s` | %s | %s | %s |' % (line, name, shown.replace('|', '\\|'), ', '.join(where) or '-', status, note or '-'))
 
 if __name__ == '__main__':
     main()
